@@ -41,6 +41,9 @@ EventClauses(hb, rb, pairs, prevres, ev) ==
     [] ev.op = "mutate" ->
         << <<"C08:MutatingOneOfOriginalAndTagifyResultNeverAffectsTheOther",
                \A j \in 1..Len(rb) : (j # ev.via /\ Related(pairs, ev.via, j)) => unchanged(j)>> >>
+    [] ev.op \in {"jsx_tagify", "jsx_str"} ->
+        << <<"C20:ConversionLeavesTheComponentAndEverythingReachableUnchanged", \A i \in 1..Len(rb) : unchanged(i)>>,
+           <<"C20:ConvertingAgainGivesTheSameResult", prevres # "" => ev.res = prevres>> >>
     [] OTHER ->
         << <<"C08:ReadOnlyOperationLeavesEveryReachableObjectStructurallyUnchanged",
                ev.ro => \A i \in 1..Len(rb) : unchanged(i)>>,
